@@ -136,6 +136,9 @@ class Kinds:
                 return {"str"}
             if l <= NUMERIC_OK and r <= NUMERIC_OK and not isinstance(e.op, ast.Pow):
                 return (l | r) - {"bool"} or {"int"}
+            if l <= NUMERIC_OK and r <= NUMERIC_OK and isinstance(e.op, ast.Pow) and "complex" not in (l | r) and l <= {"int", "bool"}:
+                # an integer base: the power is an int, or a float for a negative exponent - never complex
+                return ((l | r) - {"bool"}) | {"float"}
             return {"?"}
         if isinstance(e, ast.IfExp):
             return self.kind(fn, e.body, at, depth + 1) | self.kind(fn, e.orelse, at, depth + 1)
@@ -144,6 +147,16 @@ class Kinds:
             for v in e.value.values:
                 out2 |= self.const_kind(fn, v) or self.kind(fn, v, at, depth + 1)
             return out2
+        if isinstance(e, ast.Subscript) and isinstance(e.value, (ast.Name, ast.Attribute)):
+            # a constant table (module / class level, possibly built by a private helper): the kinds of its values
+            from ..fold import Folder, Unfoldable
+
+            try:
+                tbl = Folder({}, self.repo, fn.module, fn.cls).fold(e.value)  # type: ignore
+            except Exception:
+                tbl = None
+            if isinstance(tbl, dict) and tbl:
+                return {type(v).__name__ for v in tbl.values()}
         if isinstance(e, ast.Call):
             name = dotted(e.func) or ""
             last = name.split(".")[-1]
@@ -476,6 +489,65 @@ class Implicit:
                         return self._record(fn, n, "literal table covers every member of %s" % r.name)
         return False
 
+    def _length_constraints_exclude(self, fn: FuncInfo, n: ast.Subscript, pm: Dict[ast.AST, ast.AST]) -> bool:
+        """
+        `seq[i]` with a constant index: collect the tests that must hold on the way to the access (enclosing if / else
+        branches, conditional expressions, and earlier `if T: <leave>` statements of the enclosing blocks) and fold them for
+        every length at which the index would be invalid; the access is safe if each such length falsifies one of them.
+        """
+        from ..linform import _local_defs
+
+        if not (isinstance(n.slice, ast.Constant) and isinstance(n.slice.value, int)) and not (isinstance(n.slice, ast.UnaryOp) and isinstance(n.slice.operand, ast.Constant)):
+            return False
+        i = n.slice.value if isinstance(n.slice, ast.Constant) else -n.slice.operand.value  # type: ignore
+        seq = norm(n.value)
+        need = i + 1 if i >= 0 else -i
+        defs = _local_defs(fn)
+        defs.pop(seq, None)
+        constraints: List[Tuple[ast.AST, bool]] = []
+        cur: ast.AST = n
+        while cur in pm:
+            par = pm[cur]
+            if isinstance(par, ast.If):
+                if any(cur is s_ for s_ in par.body):
+                    constraints.append((par.test, True))
+                elif any(cur is s_ for s_ in par.orelse):
+                    constraints.append((par.test, False))
+            elif isinstance(par, ast.IfExp):
+                if cur is par.body:
+                    constraints.append((par.test, True))
+                elif cur is par.orelse:
+                    constraints.append((par.test, False))
+            elif isinstance(par, ast.BoolOp) and isinstance(par.op, ast.And):
+                for x in par.values:
+                    if x is cur:
+                        break
+                    constraints.append((x, True))
+            # earlier statements of the same block that leave when their test holds
+            for field in ("body", "orelse", "finalbody"):
+                blk = getattr(par, field, None)
+                if isinstance(blk, list) and any(cur is s_ for s_ in blk):
+                    for s_ in blk:
+                        if s_ is cur:
+                            break
+                        if isinstance(s_, ast.If) and not s_.orelse and s_.body and isinstance(s_.body[-1], (ast.Raise, ast.Return, ast.Continue, ast.Break)):
+                            constraints.append((s_.test, False))
+            if isinstance(par, (ast.FunctionDef, ast.Lambda)):
+                break
+            cur = par
+        if not constraints:
+            return False
+        for ln in range(0, need):
+            excluded = False
+            for test, want in constraints:
+                r = _fold_length_test(test, seq, ln, defs)
+                if r is not None and r != want:
+                    excluded = True
+                    break
+            if not excluded:
+                return False
+        return True
+
     def _len_guard(self, fn: FuncInfo, n: ast.Subscript, pm: Dict[ast.AST, ast.AST]) -> bool:
         for (suffix, op), reason in DISCHARGED_SITES.items():
             if fn.qualname.endswith(suffix) and norm(n) == op:
@@ -503,8 +575,8 @@ class Implicit:
 
             val = inline_properties(self.repo, fn.cls, n.value, accessors_only=False)
         idx = n.slice.value if isinstance(n.slice, ast.Constant) else -1
-        while isinstance(val, ast.Subscript) and isinstance(val.slice, ast.Slice) and val.slice.lower is None and val.slice.upper is None:
-            val = val.value  # a full-slice copy has the same length
+        while (isinstance(val, ast.Subscript) and isinstance(val.slice, ast.Slice) and val.slice.lower is None and val.slice.upper is None) or (isinstance(val, ast.Call) and dotted(val.func) in ("list", "tuple") and len(val.args) == 1 and not val.keywords):
+            val = val.value if isinstance(val, ast.Subscript) else val.args[0]  # a copy has the same length
         d0 = dotted(val)
         if d0 and d0.startswith("self.") and fn.cls is not None:
             stores = []
@@ -518,6 +590,8 @@ class Implicit:
                 val = stores[0]
         if isinstance(val, ast.Call) and isinstance(val.func, ast.Attribute) and val.func.attr in ("split", "rsplit") and idx in (0, -1):
             return self._record(fn, n, "str.split() returns at least one element")
+        if self._length_constraints_exclude(fn, n, pm):
+            return self._record(fn, n, "every length that would make the index invalid contradicts a test on the way to the access")
         v = norm(n.value)
         base = v[5:-1] if v.startswith("list(") and v.endswith(")") else v
         line = n.lineno
@@ -545,6 +619,29 @@ class Implicit:
                 if t == "not " + base or "len(%s)" % base in t:
                     return self._record(fn, n, "dominated by `if %s: raise`" % t[:40])
         return False
+
+
+def _fold_length_test(test: ast.AST, seq: str, ln: int, defs: Dict[str, ast.AST]) -> Optional[bool]:
+    """truth of a test when the sequence named `seq` has `ln` elements (None if it depends on anything else)"""
+    from ..fold import Folder, Unfoldable
+    from ..linform import _resolve
+
+    t = _resolve(test, defs)
+
+    def hook(e: ast.expr, f: Any) -> Any:
+        s_ = norm(e)
+        if s_ == "len(%s)" % seq or s_ == "len(list(%s))" % seq:
+            return ln
+        if s_ == seq:
+            return [0] * ln  # only its length / truthiness can matter
+        return NotImplemented
+
+    try:
+        return bool(Folder({}, None, None, None, hook).fold(t))  # type: ignore
+    except Unfoldable:
+        return None
+    except Exception:
+        return None
 
 
 def syntax_within(lang: str, ctor: str, underscore_removed: bool, call: ast.Call) -> Tuple[bool, str]:
@@ -881,19 +978,53 @@ class ServiceFacts:
 
     def _derived_from(self, fn: FuncInfo, recv: ast.AST, attr: str) -> bool:
         """receiver is an element/variable of a sequence built as `[f.<attr> for f in ...]` passed as an argument."""
+        def local_def(name: str) -> Optional[ast.AST]:
+            """the single defining expression of a local (also one position of a tuple assignment)"""
+            found: List[ast.AST] = []
+            for st in walk_no_nested(fn.node):
+                if isinstance(st, ast.Assign) and len(st.targets) == 1:
+                    t = st.targets[0]
+                    if isinstance(t, ast.Name) and t.id == name:
+                        found.append(st.value)
+                    elif isinstance(t, (ast.Tuple, ast.List)) and isinstance(st.value, (ast.Tuple, ast.List)) and len(t.elts) == len(st.value.elts):
+                        for a, b in zip(t.elts, st.value.elts):
+                            if isinstance(a, ast.Name) and a.id == name:
+                                found.append(b)
+                elif isinstance(st, (ast.AugAssign, ast.AnnAssign)) and isinstance(st.target, ast.Name) and st.target.id == name:
+                    found.append(st.value if st.value is not None else st)
+            return found[0] if len(found) == 1 else None
+
+        def source_param(src: ast.AST, depth: int = 0) -> Optional[str]:
+            """the parameter a sequence expression is (a slice / copy / element-preserving view of)"""
+            while isinstance(src, ast.Subscript):
+                src = src.value
+            if isinstance(src, ast.Call) and dotted(src.func) in ("list", "tuple", "reversed", "sorted") and len(src.args) == 1:
+                return source_param(src.args[0], depth + 1)
+            if isinstance(src, ast.Name):
+                if src.id in fn.params:
+                    return src.id
+                d = local_def(src.id)
+                if d is not None and depth < 4:
+                    return source_param(d, depth + 1)
+            return None
+
         if isinstance(recv, ast.Name):
-            # loop / comprehension variable over a parameter named field_types, or subscript of it
+            # loop / comprehension variable over (a slice of) a parameter
             for n in ast.walk(fn.node):
                 if isinstance(n, (ast.For, ast.comprehension)) and isinstance(n.target, ast.Name) and n.target.id == recv.id:
-                    src = n.iter
-                    while isinstance(src, ast.Subscript):
-                        src = src.value
-                    if isinstance(src, ast.Name) and src.id in fn.params:
-                        return self._param_fed_by_attr(fn, src.id, attr)
+                    p_ = source_param(n.iter)
+                    if p_ is not None:
+                        return self._param_fed_by_attr(fn, p_, attr)
+            # a local bound once to an element of the parameter
+            d = local_def(recv.id)
+            if isinstance(d, ast.Subscript) and not isinstance(d.slice, ast.Slice):
+                p_ = source_param(d.value)
+                if p_ is not None:
+                    return self._param_fed_by_attr(fn, p_, attr)
         if isinstance(recv, ast.Subscript):
-            src = recv.value
-            if isinstance(src, ast.Name) and src.id in fn.params:
-                return self._param_fed_by_attr(fn, src.id, attr)
+            p_ = source_param(recv.value)
+            if p_ is not None:
+                return self._param_fed_by_attr(fn, p_, attr)
         return False
 
     def _param_fed_by_attr(self, fn: FuncInfo, param: str, attr: str) -> bool:
@@ -934,11 +1065,13 @@ class ServiceFacts:
 def rule_r3(ctx: Ctx, g: CallGraph) -> None:
     repo = ctx.repo
     ctx.rule("C13.R3", "an InvalidDefinitionError leaving DSDLDefinition.read / _read_definitions passes a handler that stamps the definition's own path; FileNameFormatError carries the path", min_instances=3)
-    for short, want in (("_dsdl_definition.DSDLDefinition.read", "self.file_path"), ("_namespace_reader._read_definitions", "target_definition.file_path")):
+    for short, own in (("_dsdl_definition.DSDLDefinition.read", True), ("_namespace_reader._read_definitions", False)):
         fn = ctx.func(short)
         good = False
         detail = []
-        for tr in [n for n in walk_no_nested(fn.node) if isinstance(n, ast.Try)]:
+        node = ctx.inl(fn)  # private helpers expanded, so that an extracted step is still seen inside the try
+        # nested functions are searched too (the protected read may live in a local function called from the loop)
+        for tr in [n for n in ast.walk(node) if isinstance(n, ast.Try)]:
             for h in tr.handlers:
                 ts = h.type.elts if isinstance(h.type, ast.Tuple) else ([h.type] if h.type is not None else [])
                 ks = [repo.resolve_expr(fn.module, t, fn.cls) for t in ts]
@@ -946,12 +1079,19 @@ def rule_r3(ctx: Ctx, g: CallGraph) -> None:
                     calls = [c for c in ast.walk(ast.Module(body=h.body, type_ignores=[])) if isinstance(c, ast.Call) and isinstance(c.func, ast.Attribute) and c.func.attr == "set_error_location_if_unknown" and norm(c.func.value) == h.name]
                     paths = [norm(k.value) for c in calls for k in c.keywords if k.arg == "path"]
                     rer = any(isinstance(r, ast.Raise) and (r.exc is None or norm(r.exc) == h.name) for r in ast.walk(ast.Module(body=h.body, type_ignores=[])))
-                    # the handler must protect the read / parse call
-                    protects = any(isinstance(c, ast.Call) and isinstance(c.func, ast.Attribute) and c.func.attr in ("parse", "read", "finalize") for s in tr.body for c in ast.walk(s))
-                    detail.append({"paths": paths, "reraises": rer, "protects": protects})
-                    if paths == [want] and rer and protects:
+                    # what the handler protects: the definition's own parse / finalize, or the read of some definition R
+                    body_calls = [c for s_ in tr.body for c in ast.walk(s_) if isinstance(c, ast.Call)]
+                    if own:
+                        protects = any((isinstance(c.func, ast.Attribute) and c.func.attr in ("parse", "finalize")) or (dotted(c.func) or "").endswith("parse") for c in body_calls)
+                        want = ["self.file_path"]
+                    else:
+                        readers = [norm(c.func.value) for c in body_calls if isinstance(c.func, ast.Attribute) and c.func.attr == "read"]
+                        protects = len(set(readers)) == 1
+                        want = ["%s.file_path" % readers[0]] if protects else ["?"]
+                    detail.append({"paths": paths, "reraises": rer, "protects": protects, "expected path": want})
+                    if paths == want and rer and protects:
                         good = True
-        ctx.check(good, fn.short, "except Error: set_error_location_if_unknown(path=%s); raise" % want, "errors are stamped with the file being read and re-raised", fn.where(), detail)
+        ctx.check(good, fn.short, "except Error: set_error_location_if_unknown(path=<the file being read>); raise", "errors are stamped with the file being read and re-raised", fn.where(), detail)
     fe = ctx.cls("_dsdl_definition.FileNameFormatError")
     init = fe.methods.get("__init__")
     good = init is not None and "path" in init.params and any(isinstance(c, ast.Call) and any(k.arg == "path" for k in c.keywords) for c in calls_in(init.node))
